@@ -4,17 +4,20 @@ import (
 	"encoding/json"
 	"fmt"
 	"strings"
+	"time"
 
 	"github.com/cosmos/cosmos-sdk/codec"
 	sdk "github.com/cosmos/cosmos-sdk/types"
 	authtypes "github.com/cosmos/cosmos-sdk/x/auth/types"
 	"github.com/cosmos/cosmos-sdk/x/feegrant"
+	govtypes "github.com/cosmos/cosmos-sdk/x/gov/types"
 	paramproposal "github.com/cosmos/cosmos-sdk/x/params/types/proposal"
 
 	"github.com/teleport-network/teleport/x/aggregate"
 	aggregatetypes "github.com/teleport-network/teleport/x/aggregate/types"
 	rvtypes "github.com/teleport-network/teleport/x/rvesting/types"
 	"github.com/teleport-network/teleport/x/xibc"
+	tsstypes "github.com/teleport-network/teleport/x/xibc/clients/tss-client/types"
 	clienttypes "github.com/teleport-network/teleport/x/xibc/core/client/types"
 	packettypes "github.com/teleport-network/teleport/x/xibc/core/packet/types"
 	xibctypes "github.com/teleport-network/teleport/x/xibc/types"
@@ -263,6 +266,69 @@ func genesis(r *ev.Run) (evals, nontrivial int64) {
 				} else {
 					r.Outcome("validated xibc genesis initialises")
 				}
+			}
+		}
+	}
+	return
+}
+
+// govOutcomes: proposals that do NOT pass — a deposit period that expires below the minimum deposit, a voting period that
+// ends without a vote (no quorum) — are submitted by real transactions and the chain is run through the end blockers that
+// refund or burn their deposits: block processing must not panic.
+func govOutcomes(r *ev.Run) (evals, nontrivial int64) {
+	tss := world.NewAccount("gov-outcome-tss").Acc.String()
+	contents := []struct {
+		name string
+		make func() govtypes.Content
+	}{
+		{"text", func() govtypes.Content { return govtypes.NewTextProposal("t", "d") }},
+		{"create TSS client", func() govtypes.Content {
+			p, err := clienttypes.NewCreateClientProposal("t", "d", "tss-chain", &tsstypes.ClientState{TssAddress: tss, Pubkey: []byte{1}, PartPubkeys: [][]byte{{2}}, Threshold: 1}, &tsstypes.ConsensusState{})
+			if err != nil {
+				panic(err)
+			}
+			return p
+		}},
+		{"parameter change", func() govtypes.Content {
+			return paramproposal.NewParameterChangeProposal("t", "d", []paramproposal.ParamChange{{Subspace: aggregatetypes.ModuleName, Key: "EnableEVMHook", Value: "false"}})
+		}},
+	}
+	for _, ct := range contents {
+		for _, deposit := range []int64{1, 100} { // below the minimum deposit of 100 / the full deposit
+			c := world.NewChain("teleport_9000-10", world.StartTime, world.Options{Accounts: []string{"u1"}, GenesisMod: func(cdc codec.Codec, gs map[string]json.RawMessage) {
+				var g govtypes.GenesisState
+				cdc.MustUnmarshalJSON(gs[govtypes.ModuleName], &g)
+				g.DepositParams.MinDeposit = sdk.NewCoins(sdk.NewInt64Coin("stake", 100))
+				g.DepositParams.MaxDepositPeriod = 20 * time.Second
+				g.VotingParams.VotingPeriod = 20 * time.Second
+				gs[govtypes.ModuleName] = cdc.MustMarshalJSON(&g)
+			}})
+			evals++
+			msg, err := govtypes.NewMsgSubmitProposal(ct.make(), sdk.NewCoins(sdk.NewInt64Coin("stake", deposit)), c.Accounts["u1"].Acc)
+			if err != nil {
+				panic(err)
+			}
+			t := world.StartTime.Add(world.BlockStep)
+			res := c.Block(t, c.CosmosTx(c.Accounts["u1"], msg))
+			if !res[0].OK() {
+				r.Outcome("proposal refused at submission")
+				continue
+			}
+			nontrivial++
+			var pan interface{}
+			func() {
+				defer func() { pan = recover() }()
+				for i := 0; i < 12 && pan == nil; i++ { // 60 s: past the deposit period, the voting period and the tally
+					t = t.Add(world.BlockStep)
+					c.Block(t)
+				}
+			}()
+			what := map[int64]string{1: "the deposit period expires below the minimum deposit", 100: "the voting period ends without a vote"}[deposit]
+			if pan != nil {
+				r.Violation("C15:block-processing-panics-when-a-proposal-fails/"+strings.ReplaceAll(ct.name, " ", "-"), fmt.Sprintf("%s proposal, %s: %v", ct.name, what, pan), map[string]interface{}{"engine": "c15-gov-outcomes", "content": ct.name, "deposit": deposit})
+				r.Outcome("failed proposal: block processing PANICS")
+			} else {
+				r.Outcome("failed proposal (" + what + "): blocks processed")
 			}
 		}
 	}
